@@ -79,8 +79,8 @@ func supervise() {
 			first = m
 		}
 		frame := "unknown"
-		if m := regexp.MustCompile(`neutrino/query\.[^\s(]+(\([^)]*\))?[^\s(]*`).FindString(out); m != "" {
-			frame = m
+		if m := regexp.MustCompile(`neutrino/query\.((?:\(\*\w+\)\.)?[\w.]+)`).FindStringSubmatch(out); m != nil {
+			frame = "query." + m[1]
 		}
 		r.Violation(evid.Sig("process-crash", frame),
 			"the process running the real dispatcher crashed: "+first,
